@@ -269,15 +269,22 @@ func check(id, tier string) int {
 	nviol := 0
 	var unrepro []string
 	var knownHit []string
+	knownAgg := map[int]*[2]int{}
+	var knownOrder []int
 	rdir := filepath.Join(root, "replays", id)
 	os.RemoveAll(rdir)
 	for _, sig := range vorder {
 		v := vmap[sig]
 		known := false
-		for _, f := range findings {
+		for fi, f := range findings {
 			if f.Property == id && f.Status == "known" && matchSig(f.Sig, sig) {
 				known = true
-				lines = append(lines, fmt.Sprintf("KNOWN-FINDING: property=%s %s (%s; %d occurrences)", id, sig, f.What, v.Count))
+				if knownAgg[fi] == nil {
+					knownAgg[fi] = &[2]int{}
+					knownOrder = append(knownOrder, fi)
+				}
+				knownAgg[fi][0]++
+				knownAgg[fi][1] += v.Count
 				knownHit = append(knownHit, sig)
 				break
 			}
@@ -323,6 +330,10 @@ func check(id, tier string) int {
 		}
 		nviol++
 		lines = append(lines, fmt.Sprintf("VIOLATION property=%s replay=%s sig=%s %s", id, rf, sig, oneline(v.Detail, 300)))
+	}
+	for _, fi := range knownOrder {
+		f := findings[fi]
+		lines = append(lines, fmt.Sprintf("KNOWN-FINDING: property=%s %s — %s (%d signatures, %d executions)", id, f.Sig, f.What, knownAgg[fi][0], knownAgg[fi][1]))
 	}
 	// evidence
 	distinct := merged.Stats["distinct"]
